@@ -102,12 +102,12 @@ fn check_imports(w: &mut Walk<'_>, parent: &IRQueryComponent, f: &IRFold) {
     }
 }
 
-// @grid c11_grid_structural_invariants tier=quick bound="every query of the repository's valid-query corpus (4 schemas) plus 8 extra fold/tag/variable shapes, compiled by the real frontend"
+// @grid c11_grid_structural_invariants tier=quick bound="[+ seeded random accepted documents, VERIF_SEED] every query of the repository's valid-query corpus (4 schemas) plus 8 extra fold/tag/variable shapes, compiled by the real frontend"
 // @ob every compiled query: edge i leads to vertex i+1; every vertex and edge belongs to exactly one component and is indexed to it; folds precede their contents and lead to their component's root; edges go from lower to higher vertex ids; tags are defined at vertices resolved no later than their uses; each fold imports exactly (and once) the tags of its enclosing component used inside it; every variable use is recorded with a type it is a supertype of, and every recorded variable is used
 pub(crate) fn c11_grid_structural_invariants() {
     let mut n = 0u64;
     let mut failures = BTreeSet::new();
-    for case in corpus() {
+    for case in crate::verif_corpus::corpus_with_random(300, 11) {
         vk::grid_case(format_args!("{} ({})", case.name, case.schema_name));
         let Some(iq) = compile(&case) else { continue; }; // frontend-rejected corpus entries carry an expected error
         let mut w = Walk { vids: vec![], eids: vec![], problems: BTreeSet::new(), iq: &iq };
